@@ -64,7 +64,7 @@ def mc(ctx):
     ctx.tlc("RollingWindow", cfg, constants=K, name="RW-abs", timeout=900, workers=W,
             defs=dict(Bound="Len(log) <= %d /\\ now <= 16" % (2 if ctx.quick else 3)))
     # shedder: buckets of 500 ms (W = 2), cool-off = 4 ticks
-    K = dict(Size=(2 if ctx.quick else 3), Q=2, TickMs=250, Advances="{0,1,2,5}", MaxFly=3)
+    K = dict(Size=(2 if ctx.quick else 3), Q=2, TickUs=250000, Advances="{0,1,2,5}", MaxFly=3)
     bound = "now <= 6 /\\ \\A j \\in Ages : passBk[j] <= %d" % (1 if ctx.quick else 2)
     cfg = core.render_cfg(spec="Spec", constants=K, invariants=["TypeOK", "AgedOut"],
                           properties=["P1", "P2", "P2b", "P3", "WindowsFedByPass"], constraints=["Bound"], view="core")
@@ -131,49 +131,66 @@ def script(*steps):
 ANY = ("allowHot", "allowCool", "burstS", "burstL", "pass", "fail", "passn", "failn")
 
 
-def gen_s(ctx, name, size, q, tickms, maxops, adv, scr, simulate=None, depth=None):
-    K = dict(Size=size, Q=q, TickMs=tickms, Advances=adv, MaxFly=260, MaxOps=maxops, Script=scr)
+def gen_s(ctx, name, size, q, maxops, adv, scr, simulate=None, depth=None):
+    K = dict(Size=size, Q=q, TickUs=TICKUS, Advances=adv, MaxFly=380, MaxOps=maxops, Script=scr)
     cfg = core.render_cfg(spec="GSpec", constants=K, invariants=["Emit"])
     r = ctx.tlc("ShedderGen", cfg, constants=K, name=name, simulate=simulate, depth=depth, timeout=1500,
                 workers=(1 if simulate else W))
     return r.printed
 
 
+TICKUS = 250   # one specification tick = 0.25 ms: latencies of 0.25, 0.5, 1.5, 1.75, 2.25 ms are 1, 2, 6, 7, 9 ticks
+MS = 4         # ticks per millisecond
+
+
 def shedder(ctx):
     binp = ctx.go_build(PKG_S, OV_S, name="c09shed")
     plans = []
-    # (4 s, 4 buckets): bucket = 40 ticks of 25 ms, W = 1; (1 s, 10 buckets) and the default (5 s, 50 buckets): bucket = 4 ticks, W = 10
-    A1 = "{0,5,10,39,40,41,80}"
-    A10 = "{0,1,4,5,10,39,40,41}"
-    free = script((ANY, [0, 5, 40]))
+    # (4 s, 4 buckets): bucket = 1 s = 4000 ticks, W = 1; (1 s, 10 buckets) and the default (5 s, 50 buckets): bucket = 400 ticks, W = 10
+    S = 1000 * MS
+    A1 = "{0,1,2,6,9,%d,%d,%d,%d,%d,%d,%d}" % (125 * MS, 250 * MS, S - 100, S, S + 100, S + 1, 2 * S)
+    A10 = "{0,1,2,6,7,9,%d,%d,%d,%d,%d,%d,%d}" % (25 * MS, 100 * MS, 125 * MS, 250 * MS, S - 100, S, S + 100)
+    free = script((ANY, [0, 6, S]))
+    freesim = script((ANY, [0, 1, 6, 9, 125 * MS, S - 100, S, S + 100]))
+    # sub-millisecond / fractional-millisecond latencies with many passes per bucket: the capacity from the true
+    # latencies is several requests, the capacity from latencies rounded down to whole milliseconds is smaller
+    subms = script((["burstL"], [0]), (["passn"], [1, 2, 6, 7, 9]), (["burstL"], [0]), (["passn"], [2, 6, 7, 9]),
+                   (["burstL"], [0]), (["passn"], [6, 7, 9]), (["burstS"], [100 * MS, 150 * MS]),
+                   (["allowHot", "burstS"], [0]), (["allowHot"], [0]), (["allowHot"], [0]))
     if ctx.quick:
-        cool = script((["burstL"], [0]), (["fail", "passn"], [0, 5]), (["allowHot"], [0, 5, 40]),
-                      (["allowHot", "allowCool", "fail"], [0, 39, 40, 41]), (["allowCool", "allowHot"], [0, 39, 40, 41]))
-        capf = script((["burstL"], [0]), (["passn", "pass"], [5, 40]), (["burstL"], [0, 41]), (["fail", "failn"], [0]),
-                      (["allowHot"], [0, 40]))
-        plans += [("s4cool", 4, 40, 25, 5, A1, cool, None), ("s4free", 4, 40, 25, 3, "{0,5,40}", free, None),
-                  ("s4cap", 4, 40, 25, 5, A1, capf, None),
-                  ("s4sim", 4, 40, 25, 14, A1, free, (1000, 16)),
-                  ("s10sim", 10, 4, 25, 14, A10, free, (1000, 16)), ("s50sim", 50, 4, 25, 14, A10, free, (500, 16))]
+        cool = script((["burstL"], [0]), (["fail", "passn"], [0, 125 * MS]), (["allowHot"], [0, 125 * MS, S]),
+                      (["allowHot", "allowCool", "fail"], [0, S - 100, S, S + 100]), (["allowCool", "allowHot"], [0, S - 1, S, S + 1]))
+        capf = script((["burstL"], [0]), (["passn", "pass"], [6, 125 * MS, S]), (["burstL"], [0, S + 100]), (["fail", "failn"], [0]),
+                      (["allowHot"], [0, S]))
+        plans += [("s4cool", 4, S, 5, A1, cool, None), ("s4free", 4, S, 3, A1, free, None),
+                  ("s4cap", 4, S, 5, A1, capf, None), ("s10sub", 10, 100 * MS, 10, A10, subms, None),
+                  ("s4sim", 4, S, 14, A1, freesim, (1000, 16)),
+                  ("s10sim", 10, 100 * MS, 14, A10, script((ANY, [0, 1, 2, 6, 9, 100 * MS, 125 * MS, S])), (1000, 16)),
+                  ("s50sim", 50, 100 * MS, 14, A10, script((ANY, [0, 1, 6, 9, 100 * MS, 125 * MS, S])), (500, 16))]
     else:
-        cool = script((["burstL"], [0]), (["fail", "pass", "passn", "failn"], [0, 5, 10]), (["allowHot"], [0, 5, 40]),
-                      (["allowHot", "allowCool", "pass", "fail"], [0, 39, 40, 41]), (["allowCool", "allowHot"], [0, 39, 40, 41, 80]))
-        capf = script((["burstS", "burstL"], [0]), (["passn", "pass"], [5, 40]), (["burstL", "burstS"], [0, 41]),
-                      (["passn", "failn", "fail"], [0, 40]), (["allowHot"], [0, 40, 80]), (["allowHot", "allowCool"], [0, 40]))
-        plans += [("s4cool", 4, 40, 25, 5, A1, cool, None), ("s4free", 4, 40, 25, 4, "{0,5,40}", free, None),
-                  ("s4cap", 4, 40, 25, 6, A1, capf, None), ("s10cool", 10, 4, 25, 5, A10, cool, None),
-                  ("s4sim", 4, 40, 25, 20, A1, free, (8000, 22)),
-                  ("s10sim", 10, 4, 25, 20, A10, free, (8000, 22)), ("s50sim", 50, 4, 25, 20, A10, free, (4000, 22))]
-    for name, size, q, tickms, maxops, adv, scr, sim in plans:
-        cases = gen_s(ctx, name, size, q, tickms, maxops, adv, scr, simulate=(sim[0] if sim else None), depth=(sim[1] if sim else None))
+        cool = script((["burstL"], [0]), (["fail", "pass", "passn", "failn"], [0, 6, 125 * MS, 250 * MS]), (["allowHot"], [0, 125 * MS, S]),
+                      (["allowHot", "allowCool", "pass", "fail"], [0, S - 100, S, S + 100]),
+                      (["allowCool", "allowHot"], [0, S - 1, S, S + 1, 2 * S]))
+        capf = script((["burstS", "burstL"], [0]), (["passn", "pass"], [6, 125 * MS, S]), (["burstL", "burstS"], [0, S + 100]),
+                      (["passn", "failn", "fail"], [0, S]), (["allowHot"], [0, S, 2 * S]), (["allowHot", "allowCool"], [0, S]))
+        plans += [("s4cool", 4, S, 5, A1, cool, None), ("s4free", 4, S, 4, A1, script((ANY, [0, 6, S])), None),
+                  ("s4cap", 4, S, 6, A1, capf, None), ("s10cool", 10, 100 * MS, 5, A10, cool, None),
+                  ("s10sub", 10, 100 * MS, 10, A10, subms, None), ("s50sub", 50, 100 * MS, 10, A10, subms, None),
+                  ("s4sim", 4, S, 20, A1, freesim, (8000, 22)),
+                  ("s10sim", 10, 100 * MS, 20, A10, script((ANY, [0, 1, 2, 6, 9, 100 * MS, 125 * MS, S])), (8000, 22)),
+                  ("s50sim", 50, 100 * MS, 20, A10, script((ANY, [0, 1, 6, 9, 100 * MS, 125 * MS, S])), (4000, 22))]
+    for name, size, q, maxops, adv, scr, sim in plans:
+        cases = gen_s(ctx, name, size, q, maxops, adv, scr, simulate=(sim[0] if sim else None), depth=(sim[1] if sim else None))
         path, cnt = ctx.write_cases(name + ".ndjson", cases)
         ctx.samples += core.sample_of(cases, 1)
         ctx.replay(PKG_S, OV_S, "^TestVerifC09Shed$", path, label=name, shards=SHARDS, gomaxprocs=2, binp=binp,
-                   env=dict(VERIF_SIZE=size, VERIF_Q=q, VERIF_TICKMS=tickms))
+                   env=dict(VERIF_SIZE=size, VERIF_Q=q, VERIF_TICKUS=TICKUS))
     drops = sum(v for k, v in ctx.counters.items() if k.endswith(".drops"))
     ctx.notes["shedder_rejections_observed"] = drops
     if drops == 0:
         raise core.Infra("vacuous shedder replay: the real shedder never rejected a request in any behaviour")
+    if ctx.counters.get("s10sub.may_drop_steps", 0) + ctx.counters.get("s10sub.drops", 0) == 0:
+        raise core.Infra("vacuous sub-millisecond family: no step near the capacity was replayed")
 
 
 # ------------------------------------------------------------------------------------ gates
@@ -192,9 +209,9 @@ def run(ctx):
     mc(ctx)
     ctx.exhaustive = True
     ctx.assumptions += [
-        "time is the timex virtual clock (hook H1); one tick = 10 ms (window) / 25 ms (shedder)",
+        "time is the timex virtual clock (hook H1); one tick = 10 ms (window) / 0.25 ms (shedder)",
         "CPU reading injected through load.systemOverloadChecker; lib/stat sampling not exercised",
-        "capacity borderlines excluded from generation (ShedderGen!ExactCapOK)",
+        "shedder capacity is defined by the exact average latency; whole-millisecond statistics may only err upwards; genuine nearest-rounding borderlines excluded from generation (ShedderGen!StatsOK)",
     ]
     window(ctx)
     shedder(ctx)
@@ -214,8 +231,9 @@ def replay(ctx, rp):
                    env=dict(VERIF_SIZE=size, VERIF_Q=q, VERIF_IGNORE=(1 if ign else 0)))
     elif key.startswith("C09:shed"):
         size = int(msg.split("buckets=")[1].split()[0])
-        bms = int(msg.split("bucket=")[1].split("ms")[0])
-        ctx.replay(PKG_S, OV_S, "^TestVerifC09Shed$", path, label="replay", env=dict(VERIF_SIZE=size, VERIF_Q=bms // 25, VERIF_TICKMS=25))
+        q = int(msg.split("Q=")[1].split()[0])
+        tus = int(msg.split("tickus=")[1].split()[0])
+        ctx.replay(PKG_S, OV_S, "^TestVerifC09Shed$", path, label="replay", env=dict(VERIF_SIZE=size, VERIF_Q=q, VERIF_TICKUS=tus))
     elif key.startswith("C09:gate:http"):
         ctx.replay(PKG_H, OV_H, "^TestVerifC09GateHTTP$", path, label="replay")
     else:
